@@ -187,7 +187,7 @@ def renorm(repo: Repo) -> List[Ob]:
             has_zero = False
             ztests = []
             for n in [x for s in body for x in [s] + list(walk_no_nested(s))]:
-                if isinstance(n, ast.If) and any(isinstance(b, ast.Raise) for b in n.body):
+                if isinstance(n, ast.If) and (any(isinstance(b, ast.Raise) for b in n.body) or any(isinstance(b, ast.Raise) for b in n.orelse)):
                     names = {src(t) for t in ast.walk(n.test) if isinstance(t, (ast.Name, ast.Attribute))}
                     if names & applied:
                         has_zero = True
@@ -427,6 +427,30 @@ def tag(repo: Repo) -> List[Ob]:
                 (obs.append(ok("TAG", fi, f"members={lname}", ("C07",), node.ast, "members receive the same tag")) if blk_ok else
                  obs.append(bad("TAG", fi, f"members={lname}", ("C07",), node.ast,
                                 f"the product space is tagged {lname} but no `for s in self.state_objs: s.expansion_level = {lname}` accompanies it: members report a stale level")))
+    # CompositeEnvelope.combine brings its sources to the common level through their own expand() (which re-tags the members) – it never
+    # changes the representation of a block by hand while the block's members keep their old tag
+    cmb = repo.func("CompositeEnvelope.combine")
+    exp_loops = [l for l in walk_no_nested(cmb.node) if isinstance(l, ast.For)
+                 and any(isinstance(w, ast.While) and "expansion_level" in src(w.test) and any(method_call(c) and method_call(c)[1] == "expand" and src(method_call(c)[0]) == src(l.target) for c in ast.walk(w))
+                         for w in ast.walk(l))]
+    kron_loops = [l for l in walk_no_nested(cmb.node) if isinstance(l, ast.For) and any(isinstance(c, ast.Call) and call_np(c) == "kron" for c in ast.walk(l))
+                  and any(isinstance(t, ast.Attribute) and t.attr == "state_objs" and isinstance(t.ctx, ast.Store) for t in ast.walk(l))]
+    ccfg = CFG(cmb.node)
+
+    def _hdr(l):
+        return next((nd for nd in ccfg.nodes if nd.kind == "iter" and nd.stmt is l), None)
+
+    def _before(e, k):          # the expansion loop is executed on the way to the absorbing loop (spliced helpers keep foreign line numbers)
+        he, hk = _hdr(e), _hdr(k)
+        return he is not None and hk is not None and ccfg.must_pass_through(hk, {he})
+    covered = bool(kron_loops) and all(any(src(e.iter) == src(k.iter) and _before(e, k) for e in exp_loops) for k in kron_loops)
+    (obs.append(ok("TAG", cmb, "sources-promoted-by-expand", ("C07", "C08"), cmb.node, "absorbed product spaces are expanded (and re-tagged) by their own expand() before their blocks are read")) if covered else
+     obs.append(bad("TAG", cmb, "sources-promoted-by-expand", ("C07", "C08"), kron_loops[0] if kron_loops else cmb.node,
+                    "the product spaces that are absorbed are no longer brought to the common level with their own expand(): their members keep reporting the old level inside the new product space")))
+    by_hand = [x for x in walk_no_nested(cmb.node) if isinstance(x, ast.Call) and (call_np(x) == "outer" or (call_np(x) in ("dot", "matmul") and any(is_conj(a) is not None or is_dagger(a) is not None for a in x.args)))]
+    (obs.append(bad("TAG", cmb, "no-representation-change-by-hand", ("C07", "C08"), by_hand[0],
+                    f"`{src(by_hand[0])[:50]}` turns a ket into a density matrix inside combine(): the block changes representation while the subsystems it belongs to keep their level tag")) if by_hand else
+     obs.append(ok("TAG", cmb, "no-representation-change-by-hand", ("C07", "C08"), cmb.node, "combine() never builds |psi><psi| itself")))
     # nothing but the setter (and __init__) writes Envelope._expansion_level directly: that would skip the member propagation
     env = repo.cls("Envelope")
     for mname, m in env.methods.items():
@@ -772,4 +796,69 @@ def discard(repo: Repo) -> List[Ob]:
             obs.append(ok("DISCARD", fi, "no-discarded-update", props, fi.node, "no discarded functional array update"))
     if at_uses < 3:
         raise AnalysisError(f"DISCARD: {at_uses} `.at[]` uses found (floor 3)")
+    return obs
+
+
+@rule("MUST-APPLY")
+def must_apply(repo: Repo) -> List[Ob]:
+    """an apply body has no shortcut round the operator: every path that returns normally either contracts `operation.operator`
+    into the state or hands the request to another object's apply_operation.  (Paths that are infeasible because of the
+    representation level – `while level < required: expand()` leaves at least a ket – are pruned with the level domain.)"""
+    from ..cfg import refine
+    obs: List[Ob] = []
+    # the smallest required level over all operation types (read from the enum tables): the expansion loop establishes at least this
+    min_req = 2
+    for en in ("FockOperationType", "PolarizationOperationType", "CustomStateOperationType", "CompositeOperationType"):
+        ci = repo.cls(en)
+        for st in ci.node.body:
+            v = getattr(st, "value", None)
+            if isinstance(v, ast.Tuple):
+                for e in v.elts:
+                    c = level_const(e)
+                    if c is not None:
+                        min_req = min(min_req, c)
+    n = 0
+    for q in APPLY_BODIES + ["CompositeEnvelope.apply_operation"]:
+        fi = repo.func(q)
+        opn = next((p for p in fi.params if p in ("operation", "operator", "op")), None)
+        if opn is None:
+            raise AnalysisError(f"MUST-APPLY: {q} has no operation parameter")
+        cfg = CFG(fi.node)
+        init_lv = {"self": frozenset({1, 2})} if fi.cls.name in ("ProductState", "Envelope") else {}
+        lt = LevelTracker(["self"], init_lv)
+        thr = {nd for nd in cfg.nodes for x in walk_node(nd)
+               if (isinstance(x, ast.Attribute) and x.attr == "operator" and src(x.value) == opn)
+               or (method_call(x) and method_call(x)[1] == "apply_operation" and src(method_call(x)[0]) != "self")}
+        if not thr:
+            raise AnalysisError(f"MUST-APPLY: {q} never reads {opn}.operator nor delegates")
+
+        def atom(e, truth, st):
+            applied, lv = st
+            # `X.expansion_level < operation.required_expansion_level` is false  =>  level >= smallest required level
+            if isinstance(e, ast.Compare) and len(e.ops) == 1 and isinstance(e.ops[0], ast.Lt) and level_receiver(e.left) == "self" \
+                    and isinstance(e.comparators[0], ast.Attribute) and e.comparators[0].attr == "required_expansion_level" and not truth:
+                cur = LevelTracker.get(lv, "self") & frozenset(v for v in ALL_LEVELS if v >= min_req)
+                return [(applied, LevelTracker.set(lv, "self", cur))] if cur else []
+            return [(applied, o) for o in lt.atom(e, truth, lv)]
+
+        def transfer(s, lab, d, st):
+            applied, lv = st
+            if s in thr:
+                applied = True
+            if s.kind in ("test", "assert") and lab in ("T", "F"):
+                lv2 = lt.exec_node(s, lv)
+                return refine(s.ast, lab == "T", (applied, lv2), atom)
+            return [(applied, o) for o in lt.transfer(s, lab, d, lv)]
+
+        seen = explore(cfg, (False, lt.init), transfer)
+        n += 1
+        skipping = [nd for nd in cfg.nodes if nd.kind == "return" and any(not a for a, _ in seen[nd])]
+        fall = any(not a for a, _ in seen[cfg.exit]) and not skipping
+        props = ("C01", "C03", "C11") if "ProductState" in q or "Composite" in q else ("C01",)
+        if skipping or fall:
+            at = skipping[0].ast if skipping else fi.node
+            obs.append(bad("MUST-APPLY", fi, "no-shortcut", props, at,
+                           f"`{src(at)[:40]}` ends the call normally on a path that neither contracts {opn}.operator into the state nor hands the request on: the operation is silently skipped there"))
+        else:
+            obs.append(ok("MUST-APPLY", fi, "no-shortcut", props, fi.node, "every normal return has applied the operator or delegated the request"))
     return obs
